@@ -158,6 +158,67 @@ fn check_mono_instances(
     Ok(())
 }
 
+
+// ------------------------------------------------------ directed programs
+//
+// shapes the type-directed generator does not build (its generic types never refer to
+// themselves): hand-written, with the output fixed by hand.
+
+const DIRECTED: &[(&str, &str, &str)] = &[
+    ("tree-through-vec", r#"struct Tree[T] { value: T, children: Vec[Tree[T]] }
+fn leaf[T](v: T) -> Tree[T] { Tree { value: v, children: vec_new() } }
+fn count[T](t: Tree[T]) -> int32 {
+    let n = ref(1);
+    let i = ref(0);
+    let _ = while ref_get(i) < vec_len(t.children) {
+        let _ = ref_set(n, ref_get(n) + count(vec_get(t.children, ref_get(i))));
+        ref_set(i, ref_get(i) + 1)
+    };
+    ref_get(n)
+}
+fn main() {
+    let a = leaf(1);
+    let b = leaf(2);
+    let kids: Vec[Tree[int32]] = vec_push(vec_push(vec_new(), a), b);
+    let root = Tree { value: 0, children: kids };
+    let _ = string_println(int32_to_string(count(root)));
+    let s = leaf("x");
+    let _ = string_println(int32_to_string(count(s)));
+    ()
+}
+"#, "3\n1\n"),
+    ("recursive-generic-enum", r#"enum List[T] { Nil, Cons(T, List[T]) }
+fn len[T](l: List[T]) -> int32 {
+    match l {
+        List::Nil => 0,
+        List::Cons(_, rest) => 1 + len(rest),
+    }
+}
+struct Pair[A, B] { fst: A, snd: Ref[Pair[A, B]] , n: int32 }
+fn main() {
+    let l: List[int32] = List::Cons(1, List::Cons(2, List::Nil));
+    let m: List[string] = List::Cons("a", List::Nil);
+    let _ = string_println(int32_to_string(len(l) + len(m)));
+    ()
+}
+"#, "3\n"),
+    ("node-through-ref-and-enum", r#"enum Opt[T] { No, Yes(T) }
+struct Node[T] { v: T, next: Ref[Opt[Node[T]]] }
+fn depth[T](n: Node[T]) -> int32 {
+    match ref_get(n.next) {
+        Opt::No => 1,
+        Opt::Yes(m) => 1 + depth(m),
+    }
+}
+fn main() {
+    let tail = Node { v: true, next: ref(Opt::No) };
+    let head = Node { v: false, next: ref(Opt::Yes(tail)) };
+    let _ = string_println(int32_to_string(depth(head)));
+    ()
+}
+"#, "2\n"),
+];
+
 // -------------------------------------------------------------- the check
 
 fn nontrivial(kind: Kind, labels: &BTreeSet<String>, expected: &Expected) -> bool {
@@ -291,6 +352,9 @@ impl Check for ProgCheck {
         if self.kind == Kind::C09 {
             v.push(PhaseSpec { name: "go", cases: tier.pick(2_000, 40_000), max_bytes: 80, exhaustive: false });
         }
+        if matches!(self.kind, Kind::C01 | Kind::C02 | Kind::C07) {
+            v.push(PhaseSpec { name: "directed", cases: DIRECTED.len() as u64, max_bytes: 0, exhaustive: true });
+        }
         if self.kind == Kind::C01 {
             v.push(PhaseSpec {
                 name: "corpus",
@@ -311,6 +375,12 @@ impl Check for ProgCheck {
                 let c = &corpus::project_cases()[(index - n) as usize];
                 Case::new(json!({"corpus": c.name, "dir": c.dir.to_string_lossy()}))
             };
+        }
+        if phase == "directed" {
+            let (name, text, out) = DIRECTED[index as usize % DIRECTED.len()];
+            let expected = Expected { stdout: out.as_bytes().to_vec(), end: Ok(crate::refsem::End::Normal) };
+            return Case::new(json!({"text": text, "expected": expected.to_json(), "instances": {},
+                "labels": ["directed", format!("directed:{name}"), "generic-fn", "generic-call", "generic-call:composite", "adt:struct", "adt:enum", "tick"]}));
         }
         if phase == "go" {
             return crate::gogen::make_go_case(bytes, if ctx.tier == Tier::Thorough { 1000 } else { 200 });
